@@ -3,9 +3,41 @@
    new, from_slice, assign_from_slice, to_biguint, Ord), src/biguint.rs (Zero, One, Default),
    src/bigint/convert.rs (From<BigUint>, ToBigInt, ToBigUint, TryFrom<BigInt>),
    src/bigint/multiplication.rs (Mul<Sign> for Sign).  Definitions only.
-   [ineg] lives in AddSub.v, [from_biguint], [sign_neg], [sign_mul] in Base.v. *)
-From BigNum Require Import Base AddSub.
+   [ineg] lives in AddSub.v, [from_biguint], [sign_neg], [sign_mul] in Base.v.
+   The arms / tests of abs, abs_sub, signum, is_positive, is_negative, is_zero, Ord::cmp, to_biguint
+   (inherent and trait), TryFrom<BigInt> and From<BigUint> are read from the source on every run
+   (tools/extractors/sign.py -> [sign_params]); the proofs are generic under [sign_ok]. *)
+From BigNum Require Import Base SrcLit AddSub.
 Open Scope Z_scope.
+
+(** Source-extracted decision points (tools/extractors/sign.py). *)
+Inductive tb_arm := TbData | TbZero | TbNone.     (* `Some(self.data.clone())` | `Some(BigUint::ZERO)` | `None` *)
+Record tobu_arms := { tb_plus : tb_arm; tb_nosign : tb_arm; tb_minus : tb_arm }.
+Record sign_params := {
+  sgp_abs_conv : sign;           (* abs: the arm `.. => BigInt::from(self.data.clone())`      -> Minus *)
+  sgp_abs_sub_cmp : cmpop;       (* abs_sub: `if *self <= *other { ZERO } else { self - other }` -> Cle *)
+  sgp_signum_plus : Z;           (* signum: `Plus => BigInt::one()`                            -> 1 *)
+  sgp_signum_minus : Z;          (* signum: `Minus => -BigInt::one()`                          -> -1 *)
+  sgp_signum_nosign : Z;         (* signum: `NoSign => Self::ZERO`                             -> 0 *)
+  sgp_pos_eq : bool;             (* is_positive: `self.sign == Plus` is an `==`                -> true *)
+  sgp_pos_sign : sign;           (*                                                            -> Plus *)
+  sgp_neg_eq : bool;             (* is_negative: `self.sign == Minus`                          -> true *)
+  sgp_neg_sign : sign;           (*                                                            -> Minus *)
+  sgp_zero_eq : bool;            (* is_zero: `self.sign == NoSign`                             -> true *)
+  sgp_zero_sign : sign;          (*                                                            -> NoSign *)
+  sgp_cmp_ne : bool;             (* Ord::cmp: `if scmp != Equal { return scmp; }` is a `!=`    -> true *)
+  sgp_cmp_lit : comparison;      (*                                                            -> Eq *)
+  sgp_cmp_nosign : comparison;   (* Ord::cmp: `NoSign => Equal`                                -> Eq *)
+  sgp_cmp_plus_fwd : bool;       (* Ord::cmp: `Plus => self.data.cmp(&other.data)`             -> true *)
+  sgp_cmp_minus_fwd : bool;      (* Ord::cmp: `Minus => other.data.cmp(&self.data)`            -> false *)
+  sgp_from_biguint_shape : bool; (* from_biguint has the shape of Base.from_biguint (guard)    -> true *)
+  sgp_tobu : tobu_arms;          (* BigInt::to_biguint: `Plus => Some(data), NoSign => Some(ZERO), Minus => None` *)
+  sgp_tobu_trait : tobu_arms;    (* ToBigUint for BigInt: the same three arms *)
+  sgp_try_eq : bool;             (* TryFrom<BigInt>: `if value.sign() == Sign::Minus { Err }`  -> true *)
+  sgp_try_sign : sign;           (*                                                            -> Minus *)
+  sgp_from_u_neg : bool;         (* From<BigUint>: `if n.is_zero()` is negated                 -> false *)
+  sgp_from_u_sign : sign         (* From<BigUint>: `BigInt { sign: Plus, data: n }`            -> Plus *)
+}.
 
 (** * BigUint identities *)
 Definition uzero : list Z := [].                       (* BigUint::ZERO / zero() / default() *)
@@ -20,33 +52,34 @@ Definition uset_one (m : list Z) : list Z := [1].      (* data.clear(); data.pus
 (** * BigInt identities *)
 Definition izero : bigint := mkint NoSign [].          (* BigInt::ZERO / zero() / default() *)
 Definition ione : bigint := mkint Plus uone.           (* BigInt::one() *)
-Definition iis_zero (x : bigint) : bool := sign_eqb (sg x) NoSign.
+Definition iis_zero (p : sign_params) (x : bigint) : bool := sign_test (sgp_zero_eq p) (sg x) (sgp_zero_sign p).
 Definition iis_one (x : bigint) : bool := sign_eqb (sg x) Plus && uis_one (mag x).
 Definition iset_zero (x : bigint) : bigint := mkint NoSign (uset_zero (mag x)).
 Definition iset_one (x : bigint) : bigint := mkint Plus (uset_one (mag x)).
 
 (** `From<BigUint> for BigInt` (= `ToBigInt for BigUint` up to the `Some`). *)
-Definition ifrom_u (m : list Z) : bigint :=
-  if uis_zero m then izero else mkint Plus m.
+Definition ifrom_u (p : sign_params) (m : list Z) : bigint :=
+  if blit (sgp_from_u_neg p) (uis_zero m) then izero else mkint (sgp_from_u_sign p) m.
 
 (** * Sign queries *)
 Definition isign (x : bigint) : sign := sg x.
 Definition imagnitude (x : bigint) : list Z := mag x.
 Definition into_parts (x : bigint) : sign * list Z := (sg x, mag x).
-Definition is_positive (x : bigint) : bool := sign_eqb (sg x) Plus.
-Definition is_negative (x : bigint) : bool := sign_eqb (sg x) Minus.
+Definition is_positive (p : sign_params) (x : bigint) : bool := sign_test (sgp_pos_eq p) (sg x) (sgp_pos_sign p).
+Definition is_negative (p : sign_params) (x : bigint) : bool := sign_test (sgp_neg_eq p) (sg x) (sgp_neg_sign p).
 
-Definition iabs (x : bigint) : bigint :=
-  match sg x with
-  | Plus | NoSign => x
-  | Minus => ifrom_u (mag x)
-  end.
+(** `match self.sign { <one sign> => BigInt::from(self.data.clone()), <the others> => self.clone() }` *)
+Definition iabs (p : sign_params) (x : bigint) : bigint :=
+  if sign_eqb (sg x) (sgp_abs_conv p) then ifrom_u p (mag x) else x.
 
-Definition isignum (x : bigint) : bigint :=
+(** an arm of signum: `BigInt::one()` (1), `-BigInt::one()` (-1) or `Self::ZERO` (anything else) *)
+Definition signum_arm (k : Z) : bigint :=
+  if k =? 1 then ione else if k =? -1 then ineg ione else izero.
+Definition isignum (p : sign_params) (x : bigint) : bigint :=
   match sg x with
-  | Plus => ione
-  | Minus => ineg ione
-  | NoSign => izero
+  | Plus => signum_arm (sgp_signum_plus p)
+  | Minus => signum_arm (sgp_signum_minus p)
+  | NoSign => signum_arm (sgp_signum_nosign p)
   end.
 
 (** `Ord for BigInt` (derived order on `Sign`: Minus < NoSign < Plus), with its two
@@ -54,36 +87,37 @@ Definition isignum (x : bigint) : bigint :=
 Definition sign_cmp (a b : sign) : comparison := sign_z a ?= sign_z b.
 Definition sign_consistent (x : bigint) : bool :=
   xorb (negb (sign_eqb (sg x) NoSign)) (uis_zero (mag x)).
-Definition icmp (x y : bigint) : outcome comparison :=
+(** `let scmp = self.sign.cmp(&other.sign); if scmp != Equal { return scmp; }
+    match self.sign { NoSign => Equal, Plus => self.data.cmp(&other.data), Minus => other.data.cmp(&self.data) }` *)
+Definition cmp_dir (fwd : bool) (a b : list Z) : outcome comparison :=
+  if fwd then cmp_slice a b else cmp_slice b a.
+Definition icmp (p : sign_params) (x y : bigint) : outcome comparison :=
   do _ <- assert_ (sign_consistent x) (Internal 1401);
   do _ <- assert_ (sign_consistent y) (Internal 1402);
-  match sign_cmp (sg x) (sg y) with
-  | Eq => match sg x with
-          | NoSign => Ret Eq
-          | Plus => cmp_slice (mag x) (mag y)
-          | Minus => cmp_slice (mag y) (mag x)
-          end
-  | c => Ret c
-  end.
+  let scmp := sign_cmp (sg x) (sg y) in
+  if blit (sgp_cmp_ne p) (comparison_eqb scmp (sgp_cmp_lit p)) then Ret scmp
+  else match sg x with
+       | NoSign => Ret (sgp_cmp_nosign p)
+       | Plus => cmp_dir (sgp_cmp_plus_fwd p) (mag x) (mag y)
+       | Minus => cmp_dir (sgp_cmp_minus_fwd p) (mag x) (mag y)
+       end.
 
 (** `Signed::abs_sub`: `if *self <= *other { ZERO } else { self - other }` *)
-Definition abs_sub (p : addsub_params) (x y : bigint) : outcome bigint :=
-  do c <- icmp x y;
-  match c with
-  | Gt => isub p x y
-  | _ => Ret izero
-  end.
+Definition abs_sub (sp : sign_params) (p : addsub_params) (x y : bigint) : outcome bigint :=
+  do c <- icmp sp x y;
+  if cmp_ord (sgp_abs_sub_cmp sp) c then Ret izero else isub p x y.
 
 (** * Conversions between the two types *)
-Definition to_biguint (x : bigint) : option (list Z) :=   (* BigInt::to_biguint, ToBigUint for BigInt *)
-  match sg x with
-  | Plus => Some (mag x)
-  | NoSign => Some uzero
-  | Minus => None
-  end.
-Definition try_into_biguint (x : bigint) : option (list Z) :=  (* TryFrom<BigInt> for BigUint *)
-  if sign_eqb (sg x) Minus then None else Some (mag x).
-Definition u_to_bigint (m : list Z) : option bigint := Some (ifrom_u m).  (* ToBigInt for BigUint *)
+Definition tobu_eval (a : tobu_arms) (x : bigint) : option (list Z) :=
+  let arm := match sg x with Plus => tb_plus a | NoSign => tb_nosign a | Minus => tb_minus a end in
+  match arm with TbData => Some (mag x) | TbZero => Some uzero | TbNone => None end.
+Definition to_biguint (p : sign_params) (x : bigint) : option (list Z) :=         (* BigInt::to_biguint *)
+  tobu_eval (sgp_tobu p) x.
+Definition to_biguint_trait (p : sign_params) (x : bigint) : option (list Z) :=   (* ToBigUint for BigInt *)
+  tobu_eval (sgp_tobu_trait p) x.
+Definition try_into_biguint (p : sign_params) (x : bigint) : option (list Z) :=   (* TryFrom<BigInt> for BigUint *)
+  if sign_test (sgp_try_eq p) (sg x) (sgp_try_sign p) then None else Some (mag x).
+Definition u_to_bigint (p : sign_params) (m : list Z) : option bigint := Some (ifrom_u p m).  (* ToBigInt for BigUint *)
 Definition i_to_bigint (x : bigint) : option bigint := Some x.            (* ToBigInt for BigInt *)
 Definition u_to_biguint (m : list Z) : option (list Z) := Some m.         (* ToBigUint for BigUint *)
 
